@@ -142,6 +142,11 @@ func (cg *callerGen) schemaFor(g *GT, omit bool) (avro.Schema, bool) {
 	if omit && cg.rng.Intn(4) != 0 {
 		return cg.nullable(base), true
 	}
+	if !omit && cg.rng.Intn(5) == 0 {
+		// a nullable column over a plain field without omitempty: every value, zero included, is
+		// written as the non-null branch
+		return cg.nullable(base), true
+	}
 	return base, true
 }
 
@@ -291,6 +296,12 @@ func fitValue(rng *rand.Rand, s avro.Schema, g *GT, v reflect.Value) {
 				v.Field(i).Set(reflect.Zero(v.Field(i).Type()))
 				// a zero struct is not empty and a zero value under a plain schema is written as
 				// it is: wrappers inside still have to be valid where their schema has no null
+			}
+			if k := v.Field(i).Kind(); !fieldOmitEmpty(f) && fs.Type == "union" && v.Field(i).CanSet() && rng.Intn(3) == 0 &&
+				(k == reflect.Bool || k == reflect.String || (k >= reflect.Int && k <= reflect.Int64) || k == reflect.Float32 || k == reflect.Float64) {
+				// the zero value of a field without omitempty under a nullable column: a value, not null
+				v.Field(i).Set(reflect.Zero(v.Field(i).Type()))
+				continue
 			}
 			fitValue(rng, fs, f.T, v.Field(i))
 		}
